@@ -3,7 +3,7 @@
 Dumps are written by an independent serialiser (fsmc/ref/sedump.py) from generated tissues; the parser's output is
 compared with the data handed to the serialiser. Configuration space (deviation-bounded around a centre, plus the
 full product wrap width x edge-sign policy x tail style): tissue x id scheme x sign policy x wrap width (every width
-from 1 edge per line to loop length + 1) x density form x orphans x coordinate magnitude x line endings x k.
+from 1 edge per line to loop length + 1) x density form x orphans (incl. an unattached vertex hanging from a tissue vertex by one edge, written in either order) x coordinate magnitude x line endings x k.
 """
 import math
 import os
@@ -28,7 +28,7 @@ REQUIRED_TAGS = {"all": ["wrapped", "negative_refs", "no_density", "orphans", "g
 IDS = [["seq"], ["gap", 3, 5], ["rev"], ["big", 100000]]
 SIGNS = ["asbuilt", "reversed_loops", "alternating", "flip_edges"]
 DENS = [["all"], ["none"], ["missing", 0], ["missing", -1], ["missing", "mid"], ["orig_all"], ["orig_only", 0], ["bare", 0], ["bare", "mid"], ["varying"]]
-ORPH = ["none", "vertices", "vertices_edges", "path"]
+ORPH = ["none", "vertices", "vertices_edges", "path", "hanging"]
 MAG = [1.0, 1e-3, 1e5]
 
 
@@ -136,6 +136,17 @@ def generate(at, cfg):
     if cfg["orph"] == "path":
         # u2 - u0 - u1 - u3 with the middle edge carrying the highest id
         extra_e = [(base_e, base_v + 2, base_v, ("density", 2.5)), (base_e + 1, base_v + 1, base_v + 3, ("density", 2.5)), (base_e + 2, base_v, base_v + 1, ("density", 2.5))]
+    if cfg["orph"] == "hanging":
+        # two unattached vertices, each joined by ONE edge to a vertex of the tissue (a vertex with two mesh edges where there is one),
+        # the record written once as 'loose tissue' and once as 'tissue loose': these edges belong to no face and must vanish
+        # without a trace on the tissue vertex
+        deg = {}
+        for (u, v, ii) in segs:
+            deg[u] = deg.get(u, 0) + 1
+            deg[v] = deg.get(v, 0) + 1
+        two = [x for x in sorted(deg) if deg[x] == 2] or sorted(deg)
+        extra_v = [(base_v + i, far + i, far - 2 * i) for i in range(2)]
+        extra_e = [(base_e, base_v, vid[two[0]], ("density", 2.5)), (base_e + 1, vid[two[len(two) // 2]], base_v + 1, ("density", 2.5))]
     expect = {"v": {vid[i]: (round(coords[i].real, 3), round(coords[i].imag, 3)) for i in range(nv)},
               "e": {eid[n]: ((vid[v], vid[u]) if flip[n] else (vid[u], vid[v]), dens[n]) for n, (u, v, ii) in enumerate(segs)},
               "c": exp_cells, "chains": [[vid[x] for x in ch] for ch in chains],
